@@ -712,6 +712,12 @@ def gen_lists(rng, cx=False):
         yield case("array", [R(shape_of_rank(rng, r))])
         yield case("array", [R(shape_of_rank(rng, r))], {"ndmin": 3})
         yield case("array", [R(shape_of_rank(rng, r))], {"ndmin": 1})
+    for shp in ((1,), (1, 2), (2, 1), (1, 1)):
+        for nd in (1, 2, 3, 4):
+            yield case("array", [R(shp)], {"ndmin": nd})
+    for shapes in (((1,), (1,)), ((1,), (1, 1)), ((1, 2), (1,))):
+        for argnum in range(len(shapes)):
+            yield case("column_stack", [[R(s_) for s_ in shapes]], argnum=argnum, form="listfun")
     yield case("array", [scal(rng, "any", cx)])
     yield case("array", [scal(rng, "any", cx)], {"ndmin": 2})
     # append
